@@ -82,6 +82,44 @@ impl<'a, 'info> RevertibleLiquidityMarket<'a, 'info> {
     }
 }
 
+/// Verification hooks (runtime monitors in `/verif`): public forwarding wrappers only.
+#[cfg(gmsol_verif)]
+impl<'a, 'info> RevertibleLiquidityMarket<'a, 'info> {
+    /// Public wrapper of `from_revertible_market` + `enable_mint` / `enable_burn`.
+    pub fn verif_new(
+        market: RevertibleMarket<'a, 'info>,
+        market_token: &'a Account<'info, Mint>,
+        token_program: &'a AccountInfo<'info>,
+        store: &'a AccountLoader<'info, Store>,
+        receiver: Option<&'a AccountInfo<'info>>,
+        vault: Option<&'a AccountInfo<'info>>,
+    ) -> Result<Self> {
+        let mut this = Self::from_revertible_market(market, market_token, token_program, store)?;
+        if let Some(receiver) = receiver {
+            this = this.enable_mint(receiver);
+        }
+        if let Some(vault) = vault {
+            this = this.enable_burn(vault);
+        }
+        Ok(this)
+    }
+
+    /// Amounts deferred to commit: `(to_mint, to_burn)`.
+    pub fn verif_deferred(&self) -> (u64, u64) {
+        (self.to_mint, self.to_burn)
+    }
+
+    /// Public wrapper of `base`.
+    pub fn verif_base(&self) -> &RevertibleMarket<'a, 'info> {
+        self.base()
+    }
+
+    /// Public wrapper of `base_mut`.
+    pub fn verif_base_mut(&mut self) -> &mut RevertibleMarket<'a, 'info> {
+        self.base_mut()
+    }
+}
+
 impl Key for RevertibleLiquidityMarket<'_, '_> {
     fn key(&self) -> Pubkey {
         self.base.key()
